@@ -1,6 +1,6 @@
 (* C19 non-vacuity: concrete configurations meeting each theorem's hypotheses, and the
    pinned behaviours (before the fixes of candidate #16) on the same inputs. *)
-From CJ Require Import Common.Base C19.Model C19.Proofs.
+From CJ Require Import Common.Base C19.Model C19.Proofs C19.ModelConc C19.Conc.
 
 Definition raw0 : raw := mkRaw Unset Unset Unset Unset Unset Unset None None None None Unset Unset false.
 (* the shipped cmd/application/app_config.toml, entries renamed to probe indices *)
@@ -84,3 +84,20 @@ Example negative_capacity :
   exists m, start (Decoded (mkRaw (Valid 1) Negative (Valid 2) Negative (Valid 2) Unset None None None None Unset Unset false)) (SubOk [1]) = Ok m /\
             m_tester m = TCached (Some KLru) (Some KLru) /\ housekeeping m = Ok tt.
 Proof. eexists. vm_compute. repeat split; reflexivity. Qed.
+
+(* reader_old_or_new_in_full is not vacuous: a reader decides before, is blocked during, and decides after a reload *)
+Definition polA : policy := mkPol [] [0] [] [] false.      (* allowlist {0} *)
+Definition polB : policy := mkPol [1] [] [] [] false.      (* blocklist {1}, no allowlist *)
+Example reader_sees_old_then_new :
+  map (fun o => let '(q, d, p, _) := o in (d, p_allow p))
+      (cs_obs (prun false (pinit polA [polB] [[QCovert 0; QCovert 2; QCovert 2]]) [1; 1; 1; 0; 1; 0; 0; 0; 1; 0; 0; 0; 0; 1; 1]%nat)) =
+  [(false, [0]); (true, [0]); (false, [])].
+Proof. vm_compute. reflexivity. Qed.
+(* with the allowlist flag assigned BEFORE the lock is taken (seeded change C19c) a reader can decide on
+   the new flag and the old lists: address 1 is refused by A (not allowlisted) and by B (blocklisted),
+   yet the decision is "not blocked" *)
+Example flag_outside_mixture :
+  let c := prun true (pinit polA [polB] [[QCovert 1]]) [0; 1; 1]%nat in
+  map (fun o => let '(q, d, _, _) := o in d) (cs_obs c) = [false] /\
+  decide_p polA (QCovert 1) = true /\ decide_p polB (QCovert 1) = true.
+Proof. vm_compute. repeat split; reflexivity. Qed.
